@@ -21,6 +21,6 @@ Leave the worktree with the change applied. Report back a short summary (what yo
 P={}
 for l in open('/verif/properties.jsonl'):
     p=json.loads(l); P[p['id']]=p
-spec=json.load(open('/verif/tools/seedprompts/spec.json'))
+spec=json.load(open('/verif/.work/prompts/spec.json'))
 tag=sys.argv[1]; s=spec[tag]; p=P[s['id']]
 print(T.format(tag=tag,id=p['id'],title=p['title'],statement=p['statement'],files=', '.join(p['anchors']['files']),needs=s['needs'],prior=s['prior'],demo=s['demo']))
